@@ -1,6 +1,7 @@
 package main
 
 import (
+	_ "embed"
 	"fmt"
 	"go/ast"
 	"go/token"
@@ -136,7 +137,7 @@ func Load(dir string, tags string, env []string) (*Program, error) {
 		}
 	}
 	sort.Slice(p.OwnFuncs, func(i, j int) bool { return FuncKey(p.OwnFuncs[i]) < FuncKey(p.OwnFuncs[j]) })
-	p.Renames = p.applyRenames()
+	p.Renames = append(p.applyFieldRenames(), p.applyRenames()...)
 	p.LoadSecs = time.Since(t0).Seconds()
 	return p, nil
 }
@@ -392,4 +393,107 @@ func (p *Program) FileOf(pos token.Pos) (*packages.Package, *ast.File) {
 		}
 	}
 	return nil, nil
+}
+
+// ---------------------------------------------------------------------------
+// Renamed struct fields (same idea as applyRenames, for fields).
+
+//go:embed known_fields.txt
+var knownFieldsTxt string
+
+// oldFieldName: fields of the reference table that live on under another name.
+var oldFieldName = map[*types.Var]string{}
+
+func fieldNameOf(f *types.Var) string {
+	if n, ok := oldFieldName[f]; ok {
+		return n
+	}
+	return f.Name()
+}
+
+// structFields lists "pkg/path.Type<TAB>field<TAB>type" for every named struct type of the module.
+func (p *Program) structFields() []string {
+	var out []string
+	for _, pk := range p.Pkgs {
+		sc := pk.Types.Scope()
+		for _, n := range sc.Names() {
+			tn, ok := sc.Lookup(n).(*types.TypeName)
+			if !ok {
+				continue
+			}
+			st, ok := tn.Type().Underlying().(*types.Struct)
+			if !ok {
+				continue
+			}
+			for i := 0; i < st.NumFields(); i++ {
+				f := st.Field(i)
+				out = append(out, relPkg(pk.PkgPath)+"."+n+"\t"+f.Name()+"\t"+types.TypeString(f.Type(), func(q *types.Package) string { return relPkgName(q) }))
+			}
+		}
+	}
+	sort.Strings(out)
+	return out
+}
+
+// applyFieldRenames: within one struct type, exactly one table field gone and exactly one new
+// field of the very same type: the new one is the old one renamed.
+func (p *Program) applyFieldRenames() []string {
+	if len(knownFieldsTxt) < 100 {
+		return nil
+	}
+	known := map[string]map[string]string{} // type → field → fieldtype
+	for _, l := range strings.Split(knownFieldsTxt, "\n") {
+		parts := strings.Split(l, "\t")
+		if len(parts) != 3 {
+			continue
+		}
+		if known[parts[0]] == nil {
+			known[parts[0]] = map[string]string{}
+		}
+		known[parts[0]][parts[1]] = parts[2]
+	}
+	var notes []string
+	for _, pk := range p.Pkgs {
+		sc := pk.Types.Scope()
+		for _, n := range sc.Names() {
+			tn, ok := sc.Lookup(n).(*types.TypeName)
+			if !ok {
+				continue
+			}
+			st, ok := tn.Type().Underlying().(*types.Struct)
+			if !ok {
+				continue
+			}
+			key := relPkg(pk.PkgPath) + "." + n
+			kf := known[key]
+			if kf == nil {
+				continue
+			}
+			cur := map[string]*types.Var{}
+			for i := 0; i < st.NumFields(); i++ {
+				cur[st.Field(i).Name()] = st.Field(i)
+			}
+			var gone []string
+			for f := range kf {
+				if cur[f] == nil {
+					gone = append(gone, f)
+				}
+			}
+			var fresh []*types.Var
+			for f, v := range cur {
+				if _, ok := kf[f]; !ok {
+					fresh = append(fresh, v)
+				}
+			}
+			if len(gone) == 1 && len(fresh) == 1 {
+				ft := types.TypeString(fresh[0].Type(), func(q *types.Package) string { return relPkgName(q) })
+				if ft == kf[gone[0]] {
+					oldFieldName[fresh[0]] = gone[0]
+					notes = append(notes, key+"."+fresh[0].Name()+" is field "+gone[0]+" renamed")
+				}
+			}
+		}
+	}
+	sort.Strings(notes)
+	return notes
 }
